@@ -32,6 +32,8 @@ def run(ctx):
     for corner in ("min", "max"):
         a = ["-corpus", corp, "-mode", "order", "-others", "0" if thorough else "3", "-oblig", "c03,c05",
              "-params", "%s,ruleguard.rules=%s" % (corner, rules)]
+        if corner == "min":
+            a += ["-sizes", "386"]     # a context whose sizes differ from the host's: an overwritten SizesInfo becomes visible
         res_c, trace_c = lc.run_harness(ctx, "c05_" + corner, a, cwd=vlib.REPO)
         runs.append((a, res_c, trace_c))
     if thorough:
